@@ -670,6 +670,17 @@ example : runKeys (run 80 { raw := rawArgs, macros := tblHAB }).1 =
      ident b!"A", num b!"7", ident b!"x", ident b!"A", num b!"7", ident b!"x", ident b!"x"].map (fun t => (t.kind, t.lit)) := by
   decide +kernel
 
+/-- **A macro is marked ineligible exactly while one of its frames is live** — after every
+completed `next()` on a good state of this class too (function-like frames and argument frames
+included). -/
+theorem hide_iff_active_funclike (ms0 : List Macro) (hTb : TblOKS ms0) (n : Nat) (st st' : St) (g : GoodP ms0 st)
+    (ht : TextP ms0 st.raw) (h : exec n .next st = .ok st') :
+    ∀ m ∈ st'.macros, (m.hide = true ↔ ∃ f ∈ st'.ctx, f.mac = some m.name) := by
+  have g' := (next_simP ms0 hTb n st st' g ht h).1
+  intro m hm
+  rw [g'.inv.hideIff m hm]
+  simp only [liveNames, List.mem_filterMap]
+
 /-! ## 7f. Termination with function-like macros
 
 The run of the model completes on every good state over a text of the class (`TextP`): the
